@@ -250,6 +250,79 @@ def o1_sync(chk, prog, lens, server_lens=None):
     chk.end(ob)
 
 
+@expectation('c12_resync')
+def c12_resync():
+    """Native: sync_parameters twice on one connection whose server REFUSES the first batch: both calls must write a Query."""
+    def f(res):
+        r = res[0]
+        if 'panic' in r:
+            return True, 'native panic: ' + r['panic']
+        w = bytes.fromhex(r.get('written_hex', ''))
+        n, i = 0, 0
+        while i + 5 <= len(w):
+            ln = int.from_bytes(w[i + 1:i + 5], 'big')
+            n += w[i:i + 1] == b'Q'
+            i += 1 + ln
+        return n < 2, 'native: %d Query message(s) written by the two sync_parameters calls (the server refused the first batch)' % n
+    return f
+
+
+def o1_sync_refused(chk, prog):
+    """The server refuses the SET batch (one value it does not accept aborts the whole implicit transaction; Server::query returns Ok all the
+    same).  The connection then holds NONE of the requested values: the next client that wants one of them must get its SET sent."""
+    name = 'O1-sync-refused'
+    ob = chk.begin(name, 'Server::sync_parameters twice on one connection, the same client values both times (application_name and TimeZone differ from the '
+                   'connection\'s); the server answers the first batch with ErrorResponse + ReadyForQuery (refused: nothing took effect) or with CommandComplete + '
+                   'ParameterStatus + ReadyForQuery (applied) -- solver\'s choice: after a refusal the second call sends the SETs again; what the pooler believes the '
+                   'connection holds follows the server\'s ParameterStatus reports only', {'calls': 2})
+    sp = fn(prog, 'Server::sync_parameters')
+    ip = chk.interp(prog, name)
+    install_stats_noops(ip)
+
+    def harness(ip_):
+        cvals = dict(DEFAULTS)
+        cvals['application_name'] = 'reports'
+        cvals['TimeZone'] = 'Mars/Phobos'
+        client = mk_server_params(prog, cvals)
+        refused = ip_.choose(2, 'server_refuses') == 1
+
+        def m_(code, body):
+            return [BV(8, x) for x in code + (len(body) + 4).to_bytes(4, 'big') + body]
+        if refused:
+            first = m_(b'E', b'SERROR\0C22023\0Minvalid value for parameter "TimeZone"\0\0') + m_(b'Z', b'I')
+        else:
+            first = m_(b'C', b'SET\0') + m_(b'S', b'application_name\0reports\0') + m_(b'C', b'SET\0') + m_(b'S', b'TimeZone\0Mars/Phobos\0') + m_(b'Z', b'I')
+        second = m_(b'E', b'SERROR\0C22023\0Minvalid value for parameter "TimeZone"\0\0') + m_(b'Z', b'I')
+        st = StreamV(first + second, 'server')
+        st.eof_pending = True
+        srv = Ptr(Cell(mk_server(ip_, prog, st, server_parameters=mk_server_params(prog, dict(DEFAULTS))), 'server'))
+        try:
+            ip_.drive(ip_.call_function(sp, [srv, Ptr(Cell(client, 'client_params'))]))
+            n1 = len(st.out)
+            ip_.drive(ip_.call_function(sp, [srv, Ptr(Cell(client, 'client_params'))]))
+        except Panic as p:
+            raise Inconclusive('sync_parameters panic: ' + p.msg)
+        ob.nontrivial += 1
+        n2 = len(st.out) - n1
+        if refused and (n1 == 0 or n2 == 0):
+            chk.report(ob, 'C12/O1/refused-set-believed', 'the server refused the SET batch (nothing took effect) but the pooler believes the connection holds the requested values: '
+                       'the next client that wants them gets no SET (%d bytes sent by the first call, %d by the second) and runs with the connection\'s real values' % (n1, n2), {},
+                       {'commands': [{'op': 'server_script', 'pre': {'server_params': {}}, 'inbound_hex': bytes(b.v for b in first + second).hex(),
+                                      'steps': [{'do': 'sync_parameters', 'params': cvals}, {'do': 'sync_parameters', 'params': cvals}]}], 'expect': ['c12_resync']})
+        if not refused and n2 != 0:
+            chk.report(ob, 'C12/O1/applied-set-repeated', 'the server applied and reported the values, yet the second call sends them again', {}, {'commands': [], 'expect': ['c12_never']})
+        if len(ob.samples) < 2:
+            ob.samples.append({'refused': refused, 'first_call_bytes': n1, 'second_call_bytes': n2})
+    ip.explore(harness)
+    chk.absorb(ob, ip)
+    chk.end(ob)
+
+
+@expectation('c12_never')
+def c12_never():
+    return lambda res: (False, 'no native replay is defined for this report')
+
+
 @expectation('c12_status')
 def c12_status(exp_server, exp_client):
     def f(res):
@@ -365,6 +438,7 @@ def main(chk):
         tasks.append((o1_sync, (prog, {'application_name': n})))
     tasks.append((o1_sync, (prog, {'TimeZone': 1, 'application_name': 1})))
     tasks.append((o1_sync, (prog, {'application_name': 1}, {'application_name': 1})))
+    tasks.append((o1_sync_refused, (prog,)))
     tasks.append((o1_sync, (prog, {'application_name': 2}, {'application_name': 2})))
     tasks.append((o1_sync, (prog, {'application_name': 5})) if False else (o1_sync, (prog, {'DateStyle': 2})))
     for k in KEYS:
